@@ -398,7 +398,8 @@ class RadiDict:
                 else:
                     c0 = route[i]
                     for ic, c in enumerate(idx):
-                        if c == c0:
+                        # the token char in the path is plain text, not the wildcard child's key
+                        if c == c0 and c0 != TOKEN:
                             kidx = ic; break  # found!
 
                 if kidx is None:  # not found
